@@ -22,6 +22,7 @@ Check ==
     [] Ev.t = "reader" ->
          IF Ev.closeErr # "" THEN "writer-close-failed"
          ELSE IF Ev.err # "" THEN "reader-open-failed"
+         ELSE IF Ev.v0 THEN "ok"     \* a table in the legacy layout has no metadata file: nothing to be truthful about
          ELSE IF Ev.meta.n # Meta(acc).n THEN "metadata-count"
          ELSE IF Ev.meta.nulls # Meta(acc).nulls THEN "metadata-null-count"
          ELSE IF Ev.meta.min # Meta(acc).min \/ Ev.meta.max # Meta(acc).max THEN "metadata-min-max"
